@@ -5,6 +5,6 @@ i=$1; k=$2; pid=$3; shift 3
 WT=/tmp/w8-$i
 [ -f $WT/out/$k/patch.diff ] || { echo "no patch $i/$k"; exit 2; }
 cp $WT/out/$k/patch.diff $WT/out/patch$k.diff; cp $WT/out/$k/demo.rs $WT/out/demo$k.rs
-NAME=W8${pid}-agent$i-$k
+NAME=W${WAVE:-8}${pid}-agent$i-$k
 mkdir -p /verif/seeded/$NAME; cp $WT/out/$k/notes.md /verif/seeded/$NAME/notes.md 2>/dev/null
 SEED_IDS="$*" /verif/tools/labrun.sh /verif/tools/confirm_seed.sh $WT $k $NAME
